@@ -11,7 +11,9 @@ package guardiansets
 //                  start-up as main.go does it (GetGuardianSetsFromChain(0) -> NewGuardianSets), a chain that is many sets
 //                  ahead of the explorer (far-ahead lookups), lookups that are overtaken by other lookups / the ticker's
 //                  body while their chain request is held at a gate of the fake node (overlapping, repeated and contained
-//                  fetches), and a fake node that answers simultaneous requests in another order than they were made;
+//                  fetches), a fake node that answers simultaneous requests in another order than they were made, and
+//                  on-demand lookups that fail at the chain once or several times (RPC error, HTTP 503, undecodable /
+//                  empty result, no dial; any request of the range) and are repeated until the node answers again;
 //                  after every step every index is looked up.  $VERIF_OUT/explorer_hist.cases.
 // TestVerifGsRace  concurrent GetGuardianSet / GetCurrentGuardianSet readers against updateGuardianSets writers; run
 //                  with -race by checks/c19.py.  Every reader result is checked (set index = requested index, no panic);
@@ -88,6 +90,10 @@ type vChain struct {
 	abi     gethabi.ABI
 	keys    map[uint32][]eth_common.Address // index -> keys; an unknown index answers an empty key list (Solidity mapping default)
 	failAt  map[uint32]bool                 // RPC error for getGuardianSet(index)
+	// failN[i] = number of getGuardianSet(i) requests that still fail (an outage that ends by itself); failMode = how a failing
+	// request is answered (vFailModes: JSON-RPC error, HTTP 503, an ABI-undecodable result, an empty result)
+	failN    map[uint32]int
+	failMode int
 	cur     uint32
 	failCur bool
 	closed  bool     // gate: while closed every request fails and nothing is logged
@@ -198,7 +204,7 @@ func vNewChain() *vChain {
 	if err != nil {
 		panic(err)
 	}
-	c := &vChain{abi: parsed, keys: map[uint32][]eth_common.Address{}, failAt: map[uint32]bool{}, arrived: make(chan *vHeld, 4096)}
+	c := &vChain{abi: parsed, keys: map[uint32][]eth_common.Address{}, failAt: map[uint32]bool{}, failN: map[uint32]int{}, arrived: make(chan *vHeld, 4096)}
 	c.srv = httptest.NewServer(http.HandlerFunc(c.serve))
 	return c
 }
@@ -279,9 +285,22 @@ func (c *vChain) serve(w http.ResponseWriter, r *http.Request) {
 			return
 		}
 		idx := args[0].(uint32)
-		if c.failAt[idx] {
+		if c.failAt[idx] || c.failN[idx] > 0 {
+			if c.failN[idx] > 0 {
+				c.failN[idx]--
+			}
 			c.log = append(c.log, fmt.Sprintf("%d:err", idx))
-			fail("boom")
+			switch c.failMode {
+			case 1: // the endpoint is up but not serving
+				w.WriteHeader(http.StatusServiceUnavailable)
+				fmt.Fprint(w, "service unavailable")
+			case 2: // a result that is not the ABI encoding of a guardian set (one word: an offset pointing past the end)
+				fmt.Fprintf(w, `{"jsonrpc":"2.0","id":%s,"result":"0x%064x"}`, string(req.ID), 0x20)
+			case 3: // an empty result
+				fmt.Fprintf(w, `{"jsonrpc":"2.0","id":%s,"result":"0x"}`, string(req.ID))
+			default:
+				fail("boom")
+			}
 			return
 		}
 		keys := c.keys[idx]
@@ -539,6 +558,8 @@ func (g *vGen) resetChain(cur uint32) {
 	defer c.mu.Unlock()
 	c.keys = map[uint32][]eth_common.Address{}
 	c.failAt = map[uint32]bool{}
+	c.failN = map[uint32]int{}
+	c.failMode = 0
 	c.failCur = false
 	c.cur = cur
 	for i := uint32(0); i <= cur; i++ {
@@ -613,6 +634,7 @@ func (g *vGen) realistic(steps int) {
 			dial := r.Intn(6) != 0
 			if r.Intn(5) == 0 {
 				g.chain.failAt[uint32(cur+1+r.Intn(idx-cur))] = true
+				g.chain.failMode = i % 4
 			}
 			g.opGet(cid, gs, ch, idx, dial)
 			g.chain.failAt = map[uint32]bool{}
@@ -743,6 +765,8 @@ func (g *vGen) histChain(n int, cur int, maxKeys int) {
 	defer c.mu.Unlock()
 	c.keys = map[uint32][]eth_common.Address{}
 	c.failAt = map[uint32]bool{}
+	c.failN = map[uint32]int{}
+	c.failMode = 0
 	c.failCur = false
 	c.cur = uint32(cur)
 	prev := 0
@@ -949,6 +973,62 @@ func (g *vGen) histOverlap(n0, adv, k, ov int) {
 	}
 }
 
+var vFailModes = []string{"rpcerr", "http503", "malformed", "empty", "nodial"}
+
+// histFail: the on-demand lookup fails at the chain.  Start-up over n0 sets; the chain moves on; a lookup of index current+d
+// (d = 1..3) for which the request for one index of the range (first / last / middle) fails nfail (1..3) times - RPC error, HTTP
+// 503, an undecodable or empty result, or the endpoint cannot be dialled - and is repeated until the node answers again; after
+// every attempt GetCurrentGuardianSet and every index the explorer knows ("the guardian set it returns for index i is always the
+// set with index i" - also right after a lookup that could not be served), after the last one every index of the chain.
+func (g *vGen) histFail(n0, adv, salt int) {
+	cid := g.cid("lfail")
+	total := n0 + adv
+	g.histChain(total, n0-1, 3)
+	ch := make(chan *common.GuardianSet, 256)
+	gs, _ := g.boot(cid, ch, false)
+	if gs == nil {
+		return
+	}
+	g.chainTo(total - 1)
+	for round := 0; round < adv; round++ {
+		cur := gs.currentGuardianSetIndex
+		if cur < 0 || cur >= total-1 {
+			break
+		}
+		k := salt + round
+		d := 1 + k%3
+		if cur+d > total-1 {
+			d = total - 1 - cur
+		}
+		idx := cur + d
+		p := cur + 1 + []int{0, d - 1, d / 2}[(k/3)%3]
+		mode := k % len(vFailModes)
+		nfail := 1 + (k/2)%3
+		nodial := vFailModes[mode] == "nodial"
+		if !nodial {
+			g.chain.mu.Lock()
+			g.chain.failN = map[uint32]int{uint32(p): nfail}
+			g.chain.failMode = mode
+			g.chain.mu.Unlock()
+		}
+		for try := 0; try <= nfail; try++ {
+			g.opGet(cid, gs, ch, idx, !(nodial && try < nfail))
+			g.lookupAll(cid, gs, ch, total)
+			if gs.currentGuardianSetIndex >= idx {
+				break
+			}
+		}
+		g.chain.mu.Lock()
+		g.chain.failN = map[uint32]int{}
+		g.chain.failMode = 0
+		g.chain.mu.Unlock()
+	}
+	for i := 0; i < total; i++ {
+		g.opGet(cid, gs, ch, i, true)
+	}
+	g.opCur(cid, gs)
+}
+
 func TestVerifGsHist(t *testing.T) {
 	seed, _ := strconv.ParseInt(os.Getenv("VERIF_SEED"), 10, 64)
 	thorough := os.Getenv("VERIF_TIER") == "thorough"
@@ -993,6 +1073,12 @@ func TestVerifGsHist(t *testing.T) {
 		for ov := range vOvertakers {
 			adv := 2 + r.Intn(4)
 			g.histOverlap(1+r.Intn(3), adv, 2+r.Intn(adv-1), ov)
+			g.w.Flush()
+		}
+		// 5. on-demand lookups that fail at the chain (every failure mode, 1..3 times, first / middle / last request of the range)
+		salt := r.Intn(30)
+		for i := range vFailModes {
+			g.histFail(1+r.Intn(3), 3+r.Intn(4), salt+i)
 			g.w.Flush()
 		}
 	}
